@@ -17,6 +17,8 @@ def check(ctx):
     # the detrend basis is finite for the shortest segments as well
     from ..qbasis import check_basis_finite
     check_basis_finite(ctx)
+    from ..effects import check_no_global_memo
+    check_no_global_memo(ctx, rule="R10-no-global-memo")
     ctx.trust("E7 aliasing rows (asarray/ascontiguousarray/.T/basic slices alias; arithmetic, fancy indexing, nan_to_num(copy=True) are fresh)",
               "np.nan_to_num keyword defaults (posinf/neginf default to +-1.8e308, not 0)")
     ctx.assume("exact arithmetic: dtype/stride independence of the numbers and float underflow are not decided")
